@@ -4,8 +4,8 @@
 (* (lightmotif-tfmpvalue/src/lib.rs: TfmPvalue::{new, recompute,           *)
 (* distribution, lookup_pvalue}) in exact integer arithmetic.              *)
 (*                                                                         *)
-(* Units: matrix cells m[i][j] in 1/G (G = 4); granularity g = 1/GI;       *)
-(* query scores s8 in 1/8; rounding errors in 1/G of an integer step;      *)
+(* Units: matrix cells m[i][j] in 1/G (G = 4 or 16); granularity g = 1/GI; *)
+(* query scores in 1/(2G); rounding errors in 1/G of an integer step;      *)
 (* probabilities as numerators over bd^M (every level of the forward       *)
 (* propagation is kept scaled to bd^M).                                    *)
 (*                                                                         *)
@@ -30,11 +30,10 @@ IsSortedPerm(m, K, p) ==
   /\ \A i \in 1..(Len(m) - 1) : RowRange(m[p[i]], K) >= RowRange(m[p[i + 1]], K)
 Perms(m, K) == {p \in [1..Len(m) -> 1..Len(m)] : IsSortedPerm(m, K, p)}
 
-G4 == 4
-IntRaw(m, p, K, GI) == [i \in 1..Len(m) |-> [j \in 1..NS(K) |-> FloorDiv(m[p[i]][j] * GI, G4)]]
-\* largest rounding error of row i, in units of 1/4
-ErrRow(m, p, K, GI, i) == SetMax({m[p[i]][j] * GI - G4 * FloorDiv(m[p[i]][j] * GI, G4) : j \in 1..NS(K)})
-ErrMax4(m, p, K, GI) == PlainSum([i \in 1..Len(m) |-> IF i = 1 THEN 0 ELSE ErrRow(m, p, K, GI, i)], Len(m))
+IntRaw(m, p, K, GI, G) == [i \in 1..Len(m) |-> [j \in 1..NS(K) |-> FloorDiv(m[p[i]][j] * GI, G)]]
+\* largest rounding error of row i, in units of 1/G of an integer step
+ErrRow(m, p, K, GI, G, i) == SetMax({m[p[i]][j] * GI - G * FloorDiv(m[p[i]][j] * GI, G) : j \in 1..NS(K)})
+ErrMaxG(m, p, K, GI, G) == PlainSum([i \in 1..Len(m) |-> IF i = 1 THEN 0 ELSE ErrRow(m, p, K, GI, G, i)], Len(m))
 Offs(im, K) == [i \in 1..Len(im) |-> -RowLo(im[i], K)]
 IntM(im, K) == [i \in 1..Len(im) |-> [j \in 1..NS(K) |-> im[i][j] + Offs(im, K)[i]]]
 
@@ -82,17 +81,19 @@ Distribution(im, bn, bd, K, mn, mx) ==
       last == AddTo(Run[M].lv, mx + 1, Run[M].bucket)
   IN [first |-> first, last |-> last]
 
-\* lookup_pvalue for the query s8 / 8 at granularity 1 / GI: returns <<pmin, pmax>> (numerators over bd^M)
-LookupPv(m, p, bn, bd, K, GI, s8, SeedFromRow0) ==
-  LET raw == IntRaw(m, p, K, GI)
+\* lookup_pvalue for the query s8 / (2 G) at granularity 1 / GI (matrix cells in 1/G): returns <<pmin, pmax>>
+\* (numerators over bd^M)
+LookupPv(m, p, bn, bd, K, GI, G, s8, SeedFromRow0) ==
+  LET raw == IntRaw(m, p, K, GI, G)
+      U   == 2 * G
       im  == IntM(raw, K)
       M   == Len(m)
-      e4  == ErrMax4(m, p, K, GI)
+      e4  == ErrMaxG(m, p, K, GI, G)
       offS == PlainSum(Offs(raw, K), M)
-      sc8 == s8 * GI + 8 * offS                       \* scaled * 8
-      avg == FloorDiv(sc8, 8)
-      mx  == FloorDiv(sc8 + 2 * e4 + 8, 8)
-      mn  == FloorDiv(sc8 - 2 * e4 - 8, 8)
+      sc8 == s8 * GI + U * offS                       \* scaled * U
+      avg == FloorDiv(sc8, U)
+      mx  == FloorDiv(sc8 + 2 * e4 + U, U)
+      mn  == FloorDiv(sc8 - 2 * e4 - U, U)
       d   == Distribution(im, bn, bd, K, mn, mx)
       keys == d.last.pres
       seed == IF SeedFromRow0 /\ (mx + 1) \in d.first.pres THEN d.first.val[mx + 1] ELSE 0
@@ -102,7 +103,7 @@ LookupPv(m, p, bn, bd, K, GI, s8, SeedFromRow0) ==
       \* s = smallest key >= avg (keys are visited in decreasing order, the last one >= avg wins), else max + 1
       s == IF {x \in keys : x >= avg} = {} THEN mx + 1 ELSE SetMin({x \in keys : x >= avg})
       \* kmax: walk down from s while the key is within error_max of s (and not the first key)
-      below == {x \in keys : x < s /\ 4 * x < 4 * s - e4}
+      below == {x \in keys : x < s /\ G * x < G * s - e4}
       kmaxKey == IF {x \in keys : x < s} = {} THEN s
                  ELSE IF below = {} THEN SetMin(keys) ELSE SetMax(below)
   IN <<Cum(s), Cum(kmaxKey)>>
